@@ -20,16 +20,15 @@
 #include "/repo/libyara/scanner.c"
 
 static int g_live, g_tables, g_objs, g_added;
-void* yr_calloc(size_t n, size_t s) { void* p = calloc(n, s); if (p) g_live++; return p; }
-void* yr_malloc(size_t s) { void* p = malloc(s); if (p) g_live++; return p; }
+/* failure injection driven by an INPUT bit mask (bit k: the k-th fallible
+ * operation fails), so that a counterexample replays natively; CBMC's own
+ * "malloc may fail" is switched off for this target (--no-malloc-may-fail) */
+static uint32_t in_fail_mask; static int g_op;
+#define MAYFAIL() ((in_fail_mask >> (g_op++ & 31)) & 1)
+void* yr_calloc(size_t n, size_t s) { if (MAYFAIL()) return NULL; void* p = calloc(n, s); if (p) g_live++; return p; }
+void* yr_malloc(size_t s) { if (MAYFAIL()) return NULL; void* p = malloc(s); if (p) g_live++; return p; }
 void yr_free(void* p) { if (p) g_live--; free(p); }
 int rand(void) { return 7; }
-#ifndef VNATIVE
-int nondet_int(void);
-#define MAYFAIL() (nondet_int() != 0)
-#else
-#define MAYFAIL() 0
-#endif
 static int dummy_table;
 int yr_hash_table_create(int size, YR_HASH_TABLE** table)
 {
@@ -69,6 +68,8 @@ void harness(void)
   V_IN(uint32_t, num_strings);
   V_IN(uint32_t, num_namespaces);
   V_IN(uint8_t, n_ext);
+  V_IN(uint32_t, fail_mask);
+  in_fail_mask = fail_mask; g_op = 0;
   static YR_RULES rules;
   static YR_EXTERNAL_VARIABLE ext[NEXT + 1];
   V_ASSUME(num_rules <= 200 && num_strings <= 200 && num_namespaces <= 200 && n_ext <= NEXT);
